@@ -3,6 +3,7 @@ use serde_json::Value;
 
 pub mod c07;
 pub mod c09;
+pub mod c11;
 pub mod c14;
 pub mod c15;
 pub mod c16;
@@ -18,6 +19,7 @@ fn table(prop: &str) -> Option<(RunFn, ReplayFn)> {
     Some(match prop {
         "C07" => (c07::run, c07::replay),
         "C09" => (c09::run, c09::replay),
+        "C11" => (c11::run, c11::replay),
         "C14" => (c14::run, c14::replay),
         "C15" => (c15::run, c15::replay),
         "C16" => (c16::run, c16::replay),
